@@ -2,10 +2,13 @@
 
 correspondence: every geometric helper of gstools/tools/geometric.py, set_len_anis and the CovModel methods
 isometrize / anisometrize / main_axes / _get_iso_rad against the Lean model GSV.Model.Geo run on Float
-(padding rules bit-exact, matrices within 1e-12 relative to the largest entry).
+(padding rules bit-exact, matrices within 1e-12 relative to the largest entry); whole ang2dir calls (several directions,
+dim=, every input form) against ang2dirCall; live model objects walked through setter histories with reads before and after every
+change against the setter state machine mRun.
 search: the real API against independent oracles (explicit 2-D/3-D/4-D rotation formulas, orthogonality and
 inverse residuals, main-axis length scales, SRF / Krige / CondSRF / vector-field pipelines under the change of
-coordinates with an isotropic model at the transformed positions)."""
+coordinates with an isotropic model at the transformed positions; ang2dir against ISO 80000-2 formulas; geometry and
+pipelines of model objects changed in place against independent bookkeeping and fresh models)."""
 import warnings
 
 import numpy as np
@@ -22,6 +25,10 @@ ASSUMPTIONS = [
     "(composition of the Geo, Krige and Gen models) and tied by capturing the assembled kriging matrix, the right-hand "
     "sides and the generator arrays of real objects (1e-11 / 1e-10); CondSRF and vector fields by the search only",
     "lat-lon and temporal models are out of scope here (C13)",
+    "that a live CovModel object carries no geometric state besides (dim, len_scale, anis, angles) - the setter state machine "
+    "GSV.Model.Geo.mStep - is tied by read / change / read histories (state bit-exact, geometry 1e-12 after every setter), not proved",
+    "ang2dir: the whole call (several rows, dim=, transposition, rejected input) is GSV.Model.Geo.ang2dirCall, tied by differential "
+    "execution over all input forms; numpy's np.asarray / atleast_2d shape rules are summarised by (pre_dim, rows, ncols)",
 ]
 
 TOL = 1e-12
@@ -169,6 +176,239 @@ def _pipe_cases(rng, gs, dim, angles, anis, add):
         dict(case, gen=gen, seed=seed, pos=pos.tolist()))
 
 
+# ------------------------------------------------------------------ ang2dir: whole calls (several directions at once)
+ANG_SPECIAL = [0.0, np.pi / 2, -np.pi / 2, np.pi, -np.pi, 2 * np.pi, 3 * np.pi, np.pi / 4, 1e-9, -7.5, 9.0, 5 * np.pi / 2]
+
+
+def gen_ang2dir_call(rng):
+    """one call of ang2dir: (argument as the caller writes it, dim keyword or None, rows after atleast_2d, ncols, pre_dim, form).
+    1-4 directions (sometimes 0), 1-3 angles per direction (sometimes 0 / 4 / 5), angles in [-4pi, 4pi] + special values,
+    given as scalar / flat list / flat tuple / flat ndarray / nested list / 2-D ndarray / list of 1-D arrays / ragged / 3-D array;
+    dim = None / matching / 2 (the transposition rule for flat input) / wrong."""
+    ncols = int(rng.choice([1, 2, 3, 1, 2, 3, 1, 2, 3, 0, 4, 5]))
+    nrows = int(rng.choice([1, 2, 3, 4, 2, 3, 4, 1, 0]))
+    form = str(rng.choice(["scalar", "flat-list", "flat-tuple", "flat-array", "nested-list", "array2d", "array2d", "nested-list",
+                           "list-of-arrays", "ragged", "array3d"], p=[.07, .1, .05, .08, .2, .2, .1, .08, .06, .03, .03]))
+
+    def ang(shape):
+        a = rng.uniform(-4 * np.pi, 4 * np.pi, size=shape)
+        m = rng.rand(*shape) < 0.2
+        a[m] = rng.choice(ANG_SPECIAL, size=int(m.sum()))
+        return a
+    if form == "scalar":
+        a = ang((1, 1))
+        arg, pre, rows, ncols = float(a[0, 0]), 0, a.tolist(), 1
+    elif form.startswith("flat"):
+        a = ang((1, ncols))
+        pre, rows = 1, a.tolist()
+        arg = {"flat-list": a[0].tolist(), "flat-tuple": tuple(a[0].tolist()), "flat-array": a[0].copy()}[form]
+    elif form == "ragged":
+        nrows = max(nrows, 2)
+        ncols = max(ncols, 1)
+        a = ang((nrows, ncols))
+        rows = a.tolist()
+        rows[-1] = rows[-1] + [0.5]
+        arg, pre = [list(r) for r in rows], 2
+    elif form == "array3d":
+        arg, pre, rows = np.zeros((1, max(nrows, 1), max(ncols, 1))), 3, []
+    else:
+        if nrows == 0 and form != "array2d":
+            nrows = 1
+        a = ang((nrows, ncols))
+        pre, rows = 2, a.tolist()
+        arg = {"nested-list": a.tolist(), "array2d": a.copy(), "list-of-arrays": [r.copy() for r in a]}[form]
+    r = rng.rand()
+    if r < 0.55:
+        dim = None
+    elif r < 0.75:
+        dim = ncols + 1
+    elif r < 0.9:
+        dim = 2
+    else:
+        dim = int(rng.randint(0, 6))
+    return arg, dim, rows, ncols, pre, form
+
+
+def call_ang2dir(G, arg, dim):
+    try:
+        with warnings.catch_warnings():
+            warnings.simplefilter("ignore")
+            return ("ok", np.array(G.ang2dir(arg, dim=dim) if dim is not None else G.ang2dir(arg), dtype=float))
+    except ValueError:
+        return ("ValueError",)
+    except Exception as e:  # anything else is a disagreement with the model (which only knows ValueError)
+        return (type(e).__name__,)
+
+
+# ------------------------------------------------------------------ in-place histories of a model object
+HIST_MODELS = ["Exponential", "Gaussian", "Matern", "Stable", "Rational", "Spherical"]
+
+
+def gen_len_list(rng, dim):
+    """a list of per-axis length scales (2 .. dim+1 entries): random, all equal (-> isotropic), or with a rejected entry"""
+    n = int(rng.randint(2, dim + 2))
+    r = rng.rand()
+    if r < 0.3:
+        v = [float(np.round(np.exp(rng.uniform(-1, 1.5)), 3))] * n
+    else:
+        v = [float(x) for x in np.exp(rng.uniform(-1, 1.5, size=n))]
+        if r > 0.92:
+            v[int(rng.randint(1, n))] = [0.0, -1.5, float("nan")][int(rng.randint(3))]
+    return v
+
+
+def gen_history(rng, dim, nops=None, dims=(1, 2, 3, 4), bad=True):
+    """random setter history: list of (kind, value) with kind in anis / angles / len / dim; values as the caller writes them
+    (scalars or lists, short / long / empty lists, rejected ratios); `dim` is followed through the history"""
+    ops, last = [], {}
+    for _ in range(int(rng.randint(1, 9)) if nops is None else nops):
+        k = str(rng.choice(["anis", "angles", "len", "lenlist", "dim"], p=[.2, .2, .12, .3, .18]))
+        if k in last and rng.rand() < 0.5:
+            # re-assign the previous value of this kind with ONE entry changed (everything else stays what it was)
+            v = list(last[k])
+            j = int(rng.randint(len(v)))
+            v[j] = float(rng.uniform(-3, 3)) if k == "angles" else float(np.round(np.exp(rng.uniform(-1, 1.3)), 3))
+            ops.append(("len" if k == "lenlist" else k, v))
+            continue
+        if k == "anis":
+            v = gen_anis(rng, dim)
+            if bad and v and rng.rand() < 0.1:
+                v[int(rng.randint(len(v)))] = [0.0, -1.0, float("nan")][int(rng.randint(3))]
+            if v and rng.rand() < 0.15:
+                v = v[0]
+            elif v and all(x > 0 for x in v):
+                last[k] = v
+            ops.append(("anis", v))
+        elif k == "angles":
+            v = gen_angles(rng, dim)
+            if v and rng.rand() < 0.15:
+                v = v[0]
+            elif v:
+                last[k] = v
+            ops.append(("angles", v))
+        elif k == "len":
+            ops.append(("len", float(np.round(np.exp(rng.uniform(-1, 1.5)), 4))))
+        elif k == "lenlist":
+            v = gen_len_list(rng, dim)
+            if not bad:
+                v = [x if x > 0 else 1.0 for x in v]
+            if all(x > 0 for x in v):
+                last[k] = v
+            ops.append(("len", v))
+        else:
+            d = int(rng.choice(dims))
+            if bad and rng.rand() < 0.05:
+                d = 0
+            ops.append(("dim", d))
+            if d >= 1:
+                dim = d
+    return ops
+
+
+def apply_op(model, op):
+    """apply one setter to the real object; returns 'ok' or the exception name (a raising setter must leave the model alone)"""
+    k, v = op
+    try:
+        with warnings.catch_warnings(), np.errstate(all="ignore"):
+            warnings.simplefilter("ignore")
+            if k == "anis":
+                model.anis = v
+            elif k == "angles":
+                model.angles = v
+            elif k == "len":
+                model.len_scale = v
+            elif k == "intscale":
+                model.integral_scale = v
+            elif k == "dim":
+                model.dim = v
+            else:
+                raise KeyError(k)
+        return "ok"
+    except ValueError:
+        return "ValueError"
+
+
+def _as_list(v):
+    return [float(x) for x in np.atleast_1d(np.asarray(v, dtype=float))]
+
+
+def _hist_case(rng, gs, add):
+    """one model object walked through a setter history.  After the constructor and after every setter the geometry is READ
+    (a random non-empty subset of isometrize / anisometrize / _get_iso_rad / main_axes, everything at the end) - so anything
+    the object remembers from an earlier read would show - and compared with GSV.Model.Geo.mRun (state bit-exact, matrices 1e-12)."""
+    dim = int(rng.randint(1, 5))
+    angles, anis = gen_angles(rng, dim), gen_anis(rng, dim)
+    ls = gen_len_list(rng, dim) if rng.rand() < 0.35 else [float(np.round(np.exp(rng.uniform(-1, 1)), 4))]
+    ls = [x if x > 0 else 1.0 for x in ls]
+    name = HIST_MODELS[int(rng.randint(len(HIST_MODELS)))]
+    with warnings.catch_warnings():
+        warnings.simplefilter("ignore")
+        model = getattr(gs, name)(dim=dim, var=1.5, len_scale=ls if len(ls) > 1 else ls[0], anis=anis if anis else 1.0,
+                                  angles=angles if angles else 0.0)
+    ops = gen_history(rng, dim)
+    n = int(rng.randint(1, 4))
+    pos = np.round(rng.randn(4, n) * 3, 3)
+    steps = []
+
+    def read(final):
+        d = model.dim
+        want = {"iso", "ani", "rad", "axes"} if final else {k for k in ("iso", "ani", "rad", "axes") if rng.rand() < 0.6}
+        out = {"dim": int(d), "len_scale": float(model.len_scale), "anis": np.array(model.anis, dtype=float),
+               "angles": np.array(model.angles, dtype=float)}
+        if "iso" in want:
+            out["iso"] = np.array(model.isometrize(pos[:d]))
+        if "ani" in want:
+            out["ani"] = np.array(model.anisometrize(pos[:d]))
+        if "rad" in want:
+            out["rad"] = np.array(model._get_iso_rad(pos[:d]))
+        if "axes" in want:
+            out["axes"] = np.array(model.main_axes())
+        return out
+    steps.append(("ok", read(len(ops) == 0)))
+    for i, op in enumerate(ops):
+        st = apply_op(model, op)
+        steps.append((st, read(i == len(ops) - 1)))
+    lops = []
+    for k, v in ops:
+        if k == "dim":
+            lops.append({"k": "dim", "d": int(v)})
+        else:
+            lops.append({"k": k, "v": proto.fbits(_as_list(v))})
+    case = {"model": name, "dim": dim, "len_scale": ls, "anis": anis, "angles": angles, "ops": [[k, v] for k, v in ops],
+            "pos": pos.tolist()}
+    add({"op": "geo_hist", "dim": dim, "len_scale": proto.fbits(ls), "anis": proto.fbits(anis if anis else [1.0]),
+         "angles": proto.fbits(angles if angles else [0.0]), "ops": lops, "n": n, "pos": proto.fbits(pos)},
+        "history: state + isometrize/anisometrize/_get_iso_rad/main_axes after every setter", steps, "hist", case)
+    return ops
+
+
+def _cmp_hist(steps, r):
+    """compare the real object's reads with the model's run; returns a description of the first difference or None"""
+    if isinstance(r, str) or len(r) != len(steps):
+        return f"model answered {r if isinstance(r, str) else len(r)} for {len(steps)} steps"
+    for i, ((st, obs), m) in enumerate(zip(steps, r)):
+        if m[0] != st:
+            return f"step {i}: setter status {st} (gstools) vs {m[0]} (model)"
+        if int(m[1]) != obs["dim"]:
+            return f"step {i}: dim {obs['dim']} vs {m[1]}"
+        if not bits_equal([proto.b2f(m[2])], [obs["len_scale"]]):
+            return f"step {i}: len_scale {obs['len_scale']} vs {proto.b2f(m[2])}"
+        if not bits_equal(vec(m[3]) + 0.0, obs["anis"] + 0.0):
+            return f"step {i}: anis {obs['anis'].tolist()} vs {vec(m[3]).tolist()}"
+        if not bits_equal(vec(m[4]) + 0.0, obs["angles"] + 0.0):
+            return f"step {i}: angles {obs['angles'].tolist()} vs {vec(m[4]).tolist()}"
+        d = obs["dim"]
+        for key, idx, tr in (("iso", 5, True), ("ani", 6, True), ("axes", 8, False)):
+            if key in obs:
+                g = mat(m[idx]) if m[idx] else np.zeros((0, 0))
+                g = g.T if tr else g
+                if not close_mat(g, obs[key]):
+                    return f"step {i}: {key} differs: {obs[key].tolist()} vs {g.tolist()}"
+        if "rad" in obs and not close_mat(vec(m[7]), obs["rad"]):
+            return f"step {i}: iso_rad differs: {obs['rad'].tolist()} vs {vec(m[7]).tolist()}"
+    return None
+
+
 # ------------------------------------------------------------------ correspondence
 def correspondence(ctx):
     import gstools as gs
@@ -289,6 +529,22 @@ def correspondence(ctx):
                 ev = ("ValueError",)
             add({"op": "geo_ang2dir", "angles": proto.fbits(aa)}, "ang2dir", ev, "ang2dir", {"angles": aa})
 
+        # ang2dir, whole calls: several directions at once, dim= argument, transposition rule, every input form
+        if t % 2 == 1:
+            arg, adim, rows, ncols, pre, form = gen_ang2dir_call(rng)
+            ev = call_ang2dir(G, arg, adim)
+            op = {"op": "geo_ang2dir_call", "pre_dim": pre, "ncols": ncols, "rows": [proto.fbits(r_) for r_ in rows]}
+            if adim is not None:
+                op["dim"] = adim
+            add(op, "ang2dir call", ev, "ang2dir_call", {"form": form, "rows": rows, "ncols": ncols, "dim": adim})
+            dk = f"ang2dir call: {form}, rows={len(rows)}, cols={ncols}, dim={'None' if adim is None else ('match' if adim == ncols + 1 else adim)}"
+            dist[dk] = dist.get(dk, 0) + 1
+
+    # in-place histories (read / change / read) of live model objects
+    for t in range(ctx.scale(250, 2500)):
+        for k, _v in _hist_case(rng, gs, add):
+            dist["history op: " + k] = dist.get("history op: " + k, 0) + 1
+
     res = proto.run_driver(ops)
     dis, samples = [], []
     seen = set()
@@ -335,6 +591,17 @@ def correspondence(ctx):
                 else:
                     got = vec(r) if not isinstance(r, str) else r
                     ok = (not isinstance(r, str)) and close_mat(got, exp[1])
+            elif kind == "ang2dir_call":
+                if exp[0] != "ok" or isinstance(r, str):
+                    got = r
+                    ok = (r == exp[0])
+                else:
+                    got = np.array([proto.unbits(x) for x in r], dtype=float).reshape(len(r), -1) if r else np.zeros((0, exp[1].shape[1]))
+                    ok = got.shape == exp[1].shape and close_mat(got, exp[1])
+            elif kind == "hist":
+                got = _cmp_hist(exp, r)
+                ok = got is None
+                exp = [(st, {k_: _tolist(v_) for k_, v_ in o.items()}) for st, o in exp] if not ok else None
         except Exception as e:  # malformed driver answer
             ok = False
             got = f"{type(e).__name__}: {e}"
@@ -348,7 +615,10 @@ def correspondence(ctx):
     return {"evaluations": len(ops), "distinct_nontrivial": len(seen),
             "rule": "random dim 1-4, angle/anis vectors of correct, short, long and empty length incl. special angles; "
                     "distinct = (helper, dim, len(angles), len(anis)) classes hit; non-trivial = at least one non-zero angle "
-                    "or non-unit ratio in the class",
+                    "or non-unit ratio in the class; whole ang2dir calls: 0-4 rows x 0-5 angles in [-4pi,4pi] x 10 input forms x dim None / "
+                    "match / 2 / wrong; histories: live model objects of 6 classes, constructor (scalar / per-axis len_scale) + 1-8 setters "
+                    "(anis, angles, len_scale scalar / list, dim 1-4, single-entry re-assignments, rejected values), state and a random "
+                    "subset of the geometry read after every step",
             "samples": samples, "disagreements": dis[:20], "distribution": dist}
 
 
@@ -411,6 +681,65 @@ def ref_pad_anis(dim, anis):
 def ref_iso_matrix(dim, ang, anis):
     s = np.concatenate(([1.0], np.asarray(ref_pad_anis(dim, anis), dtype=float)))
     return np.diag(1.0 / s) @ ref_rotate(dim, ref_pad_angles(dim, ang)).T
+
+
+def ref_dir(a):
+    """direction of one row of spherical angles, written independently of the product loop of ang2dir:
+    2-D (cos az, sin az); 3-D ISO 80000-2 (sin inc cos az, sin inc sin az, cos inc) with (az, inc) = row;
+    n-D by the recursion x = (sin(a_last) * x', cos(a_last)) down to (sin a0, cos a0)"""
+    a = [float(v) for v in a]
+    if len(a) == 1:
+        return np.array([np.cos(a[0]), np.sin(a[0])])
+    if len(a) == 2:
+        az, inc = a
+        return np.array([np.sin(inc) * np.cos(az), np.sin(inc) * np.sin(az), np.cos(inc)])
+
+    def rec(b):
+        if len(b) == 1:
+            return np.array([np.sin(b[0]), np.cos(b[0])])
+        return np.concatenate([np.sin(b[-1]) * rec(b[:-1]), [np.cos(b[-1])]])
+    return rec(a)
+
+
+class RefModel:
+    """independent bookkeeping of what a plain CovModel's (dim, len_scale, anis, angles) must be after a setter history,
+    from the documentation: anis padded in front with 1 / cut, angles padded behind with 0 / cut, a list of length scales
+    (edge padded to dim) redefines the ratios as l[i]/l[0] and the main length scale as l[0], a single one keeps the ratios;
+    a rejected assignment (ratio not > 0, dim < 1) changes nothing."""
+
+    def __init__(self, dim, ls, anis, angles):
+        self.dim, self.L, self.anis, self.angles = dim, None, None, ref_pad_angles(dim, angles)
+        self._len(ls, anis)
+
+    def _len(self, ls, anis):
+        ls = [float(v) for v in np.atleast_1d(ls)][:self.dim]
+        if len(ls) == 1:
+            new = ref_pad_anis(self.dim, anis)
+        else:
+            full = ls + [ls[-1]] * (self.dim - len(ls))
+            with np.errstate(all="ignore"):
+                new = [float(np.float64(v) / np.float64(full[0])) for v in full[1:]]
+        if not all(v > 0 for v in new):
+            raise ValueError("ratio")
+        self.L, self.anis = ls[0], new
+
+    def apply(self, op):
+        k, v = op
+        if k == "anis":
+            self._len([self.L], v)
+        elif k == "angles":
+            self.angles = ref_pad_angles(self.dim, v)
+        elif k in ("len", "intscale"):
+            self._len(v, self.anis)
+        elif k == "dim":
+            if v < 1:
+                raise ValueError("dim")
+            self.dim = int(v)
+            self.anis = ref_pad_anis(self.dim, self.anis)
+            self.angles = ref_pad_angles(self.dim, self.angles)
+
+    def matrix(self):
+        return ref_iso_matrix(self.dim, self.angles, self.anis)
 
 
 def _viol(viol, key, what, case, **kw):
@@ -518,6 +847,237 @@ def search(ctx, deep=False):
             if not (np.allclose(model.cov_spatial(h), model.covariance(rr), rtol=1e-10, atol=1e-13)
                     and np.allclose(model.vario_spatial(h), model.variogram(rr), rtol=1e-10, atol=1e-13)):
                 _viol(viol, "covmodel:cov_spatial", "cov_spatial(h) != covariance(‖S⁻¹Rᵀh‖)", dict(case, h=h.tolist()))
+
+    # ---------------- ang2dir: whole calls against the ISO 80000-2 convention (independent formulas), row by row
+    nang = ctx.scale(600, 6000) * (3 if deep else 1)
+    ang_forms = {}
+    for t in range(nang):
+        arg, adim, rows, ncols, pre, form = gen_ang2dir_call(rng)
+        got = call_ang2dir(G, arg, adim)
+        ev += 1
+        case = {"form": form, "angles": _tolist(arg) if form != "array3d" else "zeros(1,r,c)", "dim": adim}
+        # what the documentation promises: n angles per direction <-> dim n+1 (dim >= 2); flat input of k angles with dim=2 is k
+        # 2-D directions; anything else is a ValueError
+        if form in ("ragged", "array3d"):
+            want = None
+        else:
+            d = ncols + 1 if adim is None else adim
+            rr = rows
+            if d == 2 and pre < 2 and len(rows) == 1:
+                rr = [[v] for v in rows[0]]
+                nc = 1
+            else:
+                nc = ncols
+            want = None if (d != nc + 1 or d < 2) else np.array([ref_dir(r_) for r_ in rr], dtype=float).reshape(len(rr), d)
+        ang_forms[form] = ang_forms.get(form, 0) + 1
+        if want is None:
+            if got[0] == "ok":
+                _viol(viol, "ang2dir:accepts-inconsistent-input", "ang2dir returned directions for angles / dim that do not fit together", case,
+                      got=got[1].tolist())
+            elif got[0] != "ValueError":
+                _viol(viol, "ang2dir:exception", f"ang2dir raised {got[0]} instead of ValueError", case)
+            continue
+        if got[0] != "ok":
+            _viol(viol, "ang2dir:rejects-valid-input", f"ang2dir raised {got[0]} for consistent angles / dim", case)
+            continue
+        if got[1].shape != want.shape or not np.abs(got[1] - want).max(initial=0.0) <= 1e-13 * 20:
+            _viol(viol, "ang2dir:convention" + (":several-directions" if len(want) > 1 else ""),
+                  "ang2dir differs from the documented convention (2-D (cos az, sin az); 3-D ISO 80000-2 (sin inc cos az, sin inc sin az, "
+                  "cos inc); n-D hyperspherical recursion), each direction from its own angles only", case,
+                  got=got[1].tolist(), want=want.tolist())
+            continue
+        if len(want) > 1 and t % 3 == 0:
+            # metamorphic: each direction alone, any permutation of the directions, full turns added to an azimuth
+            perm = rng.permutation(len(want))
+            a2 = np.array(rr, dtype=float)
+            shifted = a2.copy()
+            shifted[:, 0] += 2 * np.pi * rng.randint(-2, 3, size=len(a2))
+            one = np.vstack([G.ang2dir(a2[i:i + 1], dim=a2.shape[1] + 1) for i in range(len(a2))])
+            pg = G.ang2dir(a2[perm])
+            sg = G.ang2dir(shifted)
+            ev += 3
+            if not (np.array_equal(one, G.ang2dir(a2)) and np.array_equal(pg, G.ang2dir(a2)[perm])
+                    and np.abs(sg - want).max() <= 1e-13 * 200):
+                _viol(viol, "ang2dir:directions-not-independent", "ang2dir of several directions differs from the directions converted one by "
+                      "one / permuted / with full turns added", case)
+
+    # ---------------- geometry after in-place histories (read, change, read) against independent bookkeeping + fresh objects
+    nhist = ctx.scale(260, 2600) * (2 if deep else 1)
+    hist_ops, hist_uses, hist_pipes = {}, {}, {}
+    # geometry does not depend on the class; classes without an analytic spectral sampler cost 30-250 ms per SRF object (MCMC)
+    hcheap = [gs.Exponential, gs.Gaussian]
+    hother = [gs.Matern, gs.Stable, gs.Rational, gs.Spherical, gs.Cubic, gs.HyperSpherical, gs.TPLGaussian]
+    for t in range(nhist):
+        dim = int(rng.randint(1, 5)) if t % 3 else int(rng.randint(2, 4))
+        ang0, anis0 = gen_angles(rng, dim), [float(min(max(a, 0.25), 4.0)) for a in gen_anis(rng, dim)]
+        ls0 = [float(min(max(x, 0.4), 4.0)) if x > 0 else 1.0 for x in gen_len_list(rng, dim)] if rng.rand() < 0.4 \
+            else [float(np.round(np.exp(rng.uniform(-0.5, 1)), 4))]
+        Mcls = hcheap[int(rng.randint(2))] if rng.rand() < 0.75 else hother[int(rng.randint(len(hother)))]
+        var = float(np.round(np.exp(rng.uniform(-1, 1)), 3))
+        try:
+            with warnings.catch_warnings():
+                warnings.simplefilter("ignore")
+                model = Mcls(dim=dim, var=var, len_scale=ls0 if len(ls0) > 1 else ls0[0], anis=anis0 if anis0 else 1.0,
+                             angles=ang0 if ang0 else 0.0)
+        except ValueError:
+            continue
+        ref = RefModel(dim, ls0, anis0 if anis0 else [1.0], ang0 if ang0 else [0.0])
+        ops = gen_history(rng, dim, dims=(1, 2, 3) if Mcls in (gs.Cubic, gs.Spherical) else (1, 2, 3, 4))
+        # moderate ratios keep the kriging systems well conditioned; per-axis integral scales are a second way to write a list
+        ops2 = []
+        for k, v in ops:
+            if k == "anis" and isinstance(v, list):
+                v = [float(min(max(a, 0.25), 4.0)) if a > 0 else a for a in v]
+            if k == "len" and isinstance(v, list):
+                v = [float(min(max(a, 0.4), 4.0)) if a > 0 else a for a in v]
+                if rng.rand() < 0.2 and all(a > 0 for a in v):
+                    k = "intscale"
+            ops2.append((k, v))
+        ops = ops2
+        case = {"model": Mcls.__name__, "dim": dim, "len_scale": ls0, "anis": anis0, "angles": ang0, "var": var,
+                "history": [[k, v] for k, v in ops]}
+        seed = int(rng.randint(1, 2**31 - 1))
+        bad = False
+        for i, op in enumerate(ops + [None]):
+            # ---- use the object the way a program would before changing it (this is what could leave something behind)
+            d = model.dim
+            p0 = rng.randn(d, 5) * 3
+            use = ["isometrize", "anisometrize", "main_axes", "cov_spatial", "iso_rad", "srf", "krige", "len_scale_vec", "none"][int(rng.randint(9))]
+            if op is None:
+                use = "none"
+            hist_uses[use] = hist_uses.get(use, 0) + 1
+            with warnings.catch_warnings():
+                warnings.simplefilter("ignore")
+                if use == "isometrize":
+                    model.isometrize(p0)
+                elif use == "anisometrize":
+                    model.anisometrize(p0)
+                elif use == "main_axes":
+                    model.main_axes()
+                elif use == "cov_spatial":
+                    model.cov_spatial(p0)
+                elif use == "iso_rad":
+                    model._get_iso_rad(p0)
+                elif use == "srf":
+                    gs.SRF(model, seed=seed, mode_no=8)(p0)
+                elif use == "krige":
+                    gs.krige.Simple(model, p0, rng.randn(5))(p0[:, :2])
+                elif use == "len_scale_vec":
+                    model.len_scale_vec
+            # ---- every read of the CURRENT state against the independent bookkeeping
+            M = ref.matrix()
+            sc = max(1.0, max(ref.anis + [1.0]) / min(ref.anis + [1.0]))
+            x = rng.randn(d, 6) * 3
+            ev += 1
+            state_ok = (model.dim == ref.dim and len(model.anis) == d - 1 and len(model.angles) == d * (d - 1) // 2
+                        and np.array_equal(np.asarray(model.anis), ref.anis) and np.array_equal(np.asarray(model.angles) + 0.0, np.array(ref.angles) + 0.0))
+            if not state_ok:
+                _viol(viol, "history:state", "dim / anis / angles after a setter history differ from the documented rules (anis padded in front "
+                      "with 1, angles behind with 0, a len_scale list redefines the ratios, rejected assignments change nothing)",
+                      dict(case, step=i), got=[int(model.dim), _tolist(model.anis), _tolist(model.angles)], want=[ref.dim, ref.anis, ref.angles])
+                bad = True
+                break
+            geo_ok = (np.abs(model.isometrize(x) - M @ x).max() <= 1e-12 * sc * 10
+                      and np.abs(model.anisometrize(M @ x) - x).max() <= 1e-11 * sc * sc
+                      and np.abs(model.main_axes() - ref_rotate(d, ref.angles).T).max() <= 1e-12
+                      and np.abs(model._get_iso_rad(x) - np.linalg.norm(M @ x, axis=0)).max() <= 1e-12 * sc * 10)
+            ev += 4
+            if not geo_ok:
+                _viol(viol, "history:geometry-stale", "isometrize / anisometrize / main_axes / _get_iso_rad of a model changed in place differ from "
+                      "S⁻¹Rᵀ of its current (dim, angles, anis)", dict(case, step=i, used_before=use),
+                      got=model.isometrize(x).tolist(), want=(M @ x).tolist())
+                bad = True
+                break
+            if op is None:
+                break
+            # ---- the change
+            try:
+                ref.apply(op)
+                want_st = "ok"
+            except ValueError:
+                want_st = "ValueError"
+            key = op[0] + ("-list" if isinstance(op[1], list) and len(op[1]) > 1 else "")
+            hist_ops[key] = hist_ops.get(key, 0) + 1
+            try:
+                st = apply_op(model, op)
+            except Exception as e:
+                st = type(e).__name__
+            if st != want_st:
+                # classes whose integral scale cannot be set exactly raise by design; that is not a C12 matter
+                if op[0] == "intscale" and st == "ValueError":
+                    bad = True
+                    break
+                _viol(viol, "history:setter-status", f"setter {op[0]} = {op[1]}: expected {want_st}, got {st}", dict(case, step=i))
+                bad = True
+                break
+        if bad:
+            continue
+        # ---- after the history: the live object against a FRESH isotropic model at independently transformed positions
+        d, M = ref.dim, ref.matrix()
+        n = int(rng.randint(3, 10))
+        pos = rng.randn(d, n) * 3
+        ipos = M @ pos
+        try:
+            with warnings.catch_warnings():
+                warnings.simplefilter("ignore")
+                L = float(model.len_scale)
+                if not any(k == "intscale" for k, _ in ops) and not np.isclose(L, ref.L, rtol=1e-15, atol=0):
+                    _viol(viol, "history:len_scale", "main length scale after the history differs from the last assigned one", case, got=L, want=ref.L)
+                    continue
+                # everything that is not geometry (variance - which follows the length scale for truncated power-law models -,
+                # optional arguments) is taken over from the live object: C12 is about the coordinates only
+                pub = dict(dim=d, var=float(model.var), len_scale=L, **{k_: getattr(model, k_) for k_ in model.opt_arg})
+                iso = Mcls(**pub)
+                fresh = Mcls(anis=ref.anis if ref.anis else 1.0, angles=ref.angles if ref.angles else 0.0, **pub)
+                kind = ["cov_spatial", "srf", "krige", "condsrf", "srf_struct", "vector"][t % 6]
+                ok = True
+                h = rng.randn(d, 7) * 2
+                rr = np.linalg.norm(M @ h, axis=0)
+                ev += 2
+                ok = np.allclose(model.cov_spatial(h), iso.covariance(rr), rtol=1e-10, atol=1e-13) \
+                    and np.allclose(model.vario_spatial(h), fresh.vario_spatial(h), rtol=1e-10, atol=1e-13) \
+                    and np.allclose(model.len_scale_vec, L * np.array([1.0] + ref.anis), rtol=1e-14, atol=0)
+                if ok and kind == "srf":
+                    a = gs.SRF(model, seed=seed, mode_no=48)(pos)
+                    b = gs.SRF(iso, seed=seed, mode_no=48)(ipos)
+                    ev += 2
+                    ok = np.allclose(a, b, rtol=1e-9, atol=1e-9)
+                elif ok and kind == "srf_struct" and d <= 3:
+                    axes = [np.sort(rng.randn(int(rng.randint(2, 4))) * 3) for _ in range(d)]
+                    a = gs.SRF(model, seed=seed, mode_no=32).structured(axes)
+                    grid = np.array(np.meshgrid(*axes, indexing="ij")).reshape(d, -1)
+                    b = gs.SRF(iso, seed=seed, mode_no=32)(M @ grid)
+                    ev += 2
+                    ok = np.allclose(np.ravel(a), b, rtol=1e-9, atol=1e-9)
+                elif ok and kind in ("krige", "condsrf"):
+                    val = rng.randn(n)
+                    tgt = rng.randn(d, 5) * 3
+                    ka = gs.krige.Ordinary(model, pos, val)
+                    kb = gs.krige.Ordinary(iso, ipos, val)
+                    cond = np.linalg.cond(ka._krige_mat)
+                    if np.isfinite(cond) and cond < 1e6:
+                        tol = 1e-12 * cond * 100 + 1e-9
+                        if kind == "krige":
+                            fa, va = ka(tgt, return_var=True)
+                            fb, vb = kb(M @ tgt, return_var=True)
+                            ok = np.allclose(fa, fb, rtol=tol, atol=tol) and np.allclose(va, vb, rtol=tol, atol=tol)
+                        else:
+                            a = gs.CondSRF(ka, seed=seed, mode_no=32)(tgt)
+                            b = gs.CondSRF(kb, seed=seed, mode_no=32)(M @ tgt)
+                            ok = np.allclose(a, b, rtol=tol, atol=tol)
+                        ev += 2
+                elif ok and kind == "vector" and d in (2, 3):
+                    a = gs.SRF(model, generator="VectorField", seed=seed, mode_no=32)(pos)
+                    b = gs.SRF(iso, generator="VectorField", seed=seed, mode_no=32)(ipos)
+                    ev += 2
+                    ok = np.allclose(a, b, rtol=1e-9, atol=1e-9)
+        except Exception as e:
+            ctx.log(f"search: history {kind} {Mcls.__name__} dim={d} raised {type(e).__name__}: {e}")
+            continue
+        hist_pipes[kind] = hist_pipes.get(kind, 0) + 1
+        if not ok:
+            _viol(viol, f"history:pipeline:{kind}", f"{kind} with a model object changed in place differs from the fresh isotropic model at S⁻¹Rᵀx "
+                  "of the current (dim, angles, anis)", dict(case, final=[ref.dim, ref.L, ref.anis, ref.angles]))
 
     # ---------------- pipelines
     npipe = ctx.scale(180, 1500) * (2 if deep else 1)
@@ -643,4 +1203,8 @@ def search(ctx, deep=False):
     return {"evaluations": ev, "violations": viol,
             "summary": f"{nmat} random (dim 1-4, angles, anis) matrix sets: orthogonality/det/inverse residuals (max {maxres:.1e}), "
                        f"explicit 2-D/3-D/4-D convention formulas, isometrize definition, CovModel round trips, main-axis "
-                       f"length scales, cov_spatial; pipelines vs isotropic model at independently transformed positions: {pipes}"}
+                       f"length scales, cov_spatial; pipelines vs isotropic model at independently transformed positions: {pipes}; "
+                       f"{nang} whole ang2dir calls (1-4 directions, 1-3(5) angles, dim= None/match/2/wrong, angles in [-4pi,4pi]) vs ISO "
+                       f"80000-2 formulas, single-direction / permutation / full-turn relations: {ang_forms}; {nhist} live model objects "
+                       f"walked through setter histories {hist_ops} with uses before each change {hist_uses}: state vs independent "
+                       f"bookkeeping, geometry vs S⁻¹Rᵀ after every step, pipelines after the history vs fresh isotropic model: {hist_pipes}"}
